@@ -8,7 +8,10 @@ Three parts, all pure parsing (nothing is imported from the repository, nothing 
     with the *spelling* of the labels and of the macro invoked in each case, through a small
     tokenizer -- clang's JSON AST keeps only expansion locations for macro-expanded code).
     ``Chain`` records the hops of one key through several tables so that a report can say at
-    which table a key went astray.
+    which table a key went astray.  Equivalent spellings are read alike: ``{..}`` / ``dict(k=v)`` /
+    named module constants (``py_lit``); if/else-if ladders and ``switch`` (``c_dispatch_tables``);
+    macro, ``enum`` and ``const int`` constants (``load_enums``, ``const_int``); cv/restrict
+    qualifiers are dropped from types (``base_type``).
 
 2.  *E-mono for C* (``Ev``): an abstract evaluator of straight-line C (declarations, assignments,
     compound assignments, counted loops entered once, calls to functions of the same translation
